@@ -61,7 +61,7 @@ ASSUMPTIONS = [
 ENC_ERRORS = ("wamp.error.encryption.decrypt_error", "wamp.error.encryption.trusted_uri_mismatch",
               "wamp.error.no_payload_codec")
 DIRECTIONS = ("call", "publish", "yield", "error")
-LAYOUTS = ("default", "default-str", "prefix", "split", "split-prefix")
+LAYOUTS = ("default", "default-str", "prefix", "split", "split-prefix", "nested-partial")
 
 PROC_A, PROC_B = "com.myapp.proc1", "com.myapp.proc2"
 PROC_S, PROC_CLEAR = "com.myapp.secret.proc", "org.other.proc"
@@ -118,6 +118,8 @@ def covered(layout, uri):
     """does the layout hold a key for this URI?"""
     if layout in ("prefix", "split-prefix"):
         return uri.startswith("com.myapp.")
+    if layout == "nested-partial":
+        return uri.startswith("com.myapp.secret.")
     return True
 
 
@@ -134,6 +136,10 @@ def expected_result(args, kwargs):
 def uris_for(layout, direction):
     """[(primary URI, error URI)] to run in clean executions"""
     out = []
+    if layout == "nested-partial":
+        # only URIs under the more specific prefix are covered on both sides
+        return {"publish": [(TOPIC_S, None)], "call": [(PROC_S, None)], "yield": [(PROC_S, None)],
+                "error": [(PROC_S, ERR_S)]}[direction]
     if direction == "publish":
         out = [(TOPIC_A, None)]
         if layout in ("prefix", "split-prefix"):
@@ -279,6 +285,13 @@ def keyrings(layout, variant=None):
         for k in (ko, kr):
             k.set_key("com.myapp.", full(1, 2))
             k.set_key("com.myapp.secret.", full(3, 4))
+    elif layout == "nested-partial":
+        # nested prefixes on one side, the peer holds the more specific key only: the key of the
+        # LONGEST matching prefix governs a URI
+        ko, kr = KeyRing(), KeyRing()
+        ko.set_key("com.myapp.", full(1, 2))
+        ko.set_key("com.myapp.secret.", full(3, 4))
+        kr.set_key("com.myapp.secret.", full(3, 4))
     elif layout == "split":
         ko = KeyRing(Key(originator_priv=priv(1), responder_pub=pub(2)))
         kr = KeyRing(Key(originator_pub=pub(1), responder_priv=priv(2)))
